@@ -1,9 +1,17 @@
 package main
 
 import (
+	"bytes"
 	"context"
 	"fmt"
+	"math/rand"
+	"os"
+	"os/exec"
+	"path/filepath"
 	"sort"
+	"strconv"
+	"strings"
+	"time"
 
 	"berty.tech/go-orbit-db/iface"
 	"verifharness/sim"
@@ -24,8 +32,318 @@ func coqKvMap(c *sim.Canon, m map[string][]byte) string {
 	return sim.CoqList(out)
 }
 
+// kvRoutes performs, for the index checks (C06 key-value, C07 documents), the steps by
+// which entries reach a store OTHER than a local write or a sync: saving a snapshot,
+// loading it into the live store (which may hold newer entries by then), reading the
+// cached heads again on the live store (with or without a limit) and restarts (close,
+// reopen on the same instance) followed by nothing, Load(-1), Load(n) with a limit,
+// LoadFromSnapshot, or two of these in a row.  `observe` is called after every single
+// call that can rebuild the index, so that one case never spans two rebuilds; its
+// `fresh` argument tells that the call replaced the store object: the index is a new,
+// empty one and the caller's "previous map" starts from empty again.
+type kvRoutes struct {
+	saved    []bool // a snapshot is in the replica's cache (it survives restarts)
+	savedLen []int  // entries the log held when it was saved
+	// bookkeeping for the classification of cases (known finding: a limited Load on a store
+	// that holds more entries than the limit truncates the log, and the index map, which is
+	// never reset, keeps the keys of the entries that left the log)
+	held   []map[int]bool // listing at the previous observation of the replica's current handle
+	shrunk []bool         // the log of the current handle lost entries at some point
+	// guarded calls (see kvProbe): steps of this history whose Load is left out because a
+	// child process that tried it first did not come back from it
+	hist    int
+	skipped []int
+}
+
+func newKvRoutes(n int, hist int) *kvRoutes {
+	return &kvRoutes{saved: make([]bool, n), savedLen: make([]int, n), held: make([]map[int]bool, n), shrunk: make([]bool, n), hist: hist}
+}
+
+// A Load with a limit larger than the number of entries the store holds can make Join
+// slice out of bounds (go-ipfs-log keeps "the last `size` entries" of a log that holds
+// fewer).  That panic happens on a goroutine spawned by Load and kills the process, so
+// such a call is tried first in a child process: this binary re-executed with the same
+// seed and tier (every choice of a history comes from a generator seeded from r.Rng at the
+// start of the history, so the child skips the other histories and repeats this one), told
+// through the environment which call to stop at.  The child prints PROBE-RETURNED when the
+// call came back, PROBE-DIVERGED when it did not reach the same call; anything else means
+// it died.  The parent performs the call itself only when the child came back from it.
+const (
+	kvProbeEnv = "VCHECK_KV_PROBE" // <hist>:<step>:<call>
+	kvSkipEnv  = "VCHECK_KV_SKIP"  // steps of that history whose guarded call is left out
+)
+
+type kvProbeTarget struct {
+	hist, step int
+	call       string
+	skip       map[int]bool
+}
+
+// kvProbeMode tells whether this process is a probing child, and for which call.
+func kvProbeMode() *kvProbeTarget {
+	v := os.Getenv(kvProbeEnv)
+	if v == "" {
+		return nil
+	}
+	p := strings.SplitN(v, ":", 3)
+	if len(p) != 3 {
+		fmt.Println("PROBE-DIVERGED bad target")
+		os.Exit(0)
+	}
+	t := &kvProbeTarget{call: p[2], skip: map[int]bool{}}
+	t.hist, _ = strconv.Atoi(p[0])
+	t.step, _ = strconv.Atoi(p[1])
+	for _, x := range strings.Split(os.Getenv(kvSkipEnv), ",") {
+		if n, err := strconv.Atoi(x); err == nil {
+			t.skip[n] = true
+		}
+	}
+	return t
+}
+
+// kvHistoryRng gives history hi its own generator (seeded from r.Rng) and tells whether
+// the history is to be run (a probing child runs only the history of its target).
+func kvHistoryRng(r *Run, master *rand.Rand, hi int) bool {
+	r.Rng = rand.New(rand.NewSource(master.Int63()))
+	t := kvProbeMode()
+	return t == nil || t.hist == hi
+}
+
+// kvProbeEnd is reached by a probing child that finished its history without meeting the call.
+func kvProbeEnd(hi int) {
+	if t := kvProbeMode(); t != nil && t.hist == hi {
+		fmt.Println("PROBE-DIVERGED call not reached")
+		os.Exit(0)
+	}
+}
+
+// guard decides what to do with the guarded call `call` of step `step`: perform it
+// (true) or leave it out (false).  In a probing child it does not return for the target.
+func (k *kvRoutes) guard(r *Run, step int, call string, do func() error) bool {
+	if t := kvProbeMode(); t != nil {
+		if t.step == step {
+			if t.call != call {
+				fmt.Printf("PROBE-DIVERGED %s instead of %s\n", call, t.call)
+				os.Exit(0)
+			}
+			err := do()
+			// a panic on one of Load's goroutines runs that goroutine's deferred calls first, which
+			// let Load return here: leave the runtime the time to end the process
+			time.Sleep(150 * time.Millisecond)
+			fmt.Printf("PROBE-RETURNED %v\n", err)
+			os.Exit(0)
+		}
+		return !t.skip[step]
+	}
+	// every probe costs a process start: a budget per run keeps the quick tier quick
+	budget := 4
+	if r.Tier == "thorough" {
+		budget = 80
+	}
+	if r.Dist["probe:returned"]+r.Dist["probe:died"]+r.Dist["probe:diverged"]+r.Dist["probe:hang"]+r.Dist["probe:inconclusive"] >= budget {
+		r.Count("probe budget used up: call left out")
+		k.skipped = append(k.skipped, step)
+		return false
+	}
+	skip := make([]string, len(k.skipped))
+	for i, s := range k.skipped {
+		skip[i] = strconv.Itoa(s)
+	}
+	// the child's working files go below the output directory and are removed with it
+	tmp := filepath.Join(r.Out, "probe-tmp")
+	_ = os.MkdirAll(tmp, 0o755)
+	defer os.RemoveAll(tmp)
+	cmd := exec.Command(os.Args[0], "-prop", r.Prop, "-seed", strconv.FormatInt(r.Seed, 10), "-tier", r.Tier, "-out", r.Out)
+	cmd.Env = append(os.Environ(), fmt.Sprintf("%s=%d:%d:%s", kvProbeEnv, k.hist, step, call), kvSkipEnv+"="+strings.Join(skip, ","), "TMPDIR="+tmp)
+	var stdout, stderr bytes.Buffer
+	cmd.Stdout, cmd.Stderr = &stdout, &stderr
+	done := make(chan error, 1)
+	if err := cmd.Start(); err != nil {
+		r.Count("probe:not-started")
+		return false
+	}
+	go func() { done <- cmd.Wait() }()
+	outcome := ""
+	select {
+	case <-done:
+	case <-time.After(120 * time.Second):
+		_ = cmd.Process.Kill()
+		outcome = "hang"
+	}
+	switch {
+	case outcome == "hang":
+	case strings.Contains(stdout.String(), "PROBE-RETURNED"):
+		r.Count("probe:returned")
+		return true
+	case strings.Contains(stdout.String(), "PROBE-DIVERGED"):
+		// (a limited load of a log with several heads joins them in goroutine order: the
+		// child may hold a log of another length by then)
+		r.Count("probe:diverged")
+		k.skipped = append(k.skipped, step)
+		return false
+	case !strings.Contains(stderr.String(), "panic:") && !strings.Contains(stderr.String(), "fatal error:"):
+		// the child stopped for a reason of its own (harness error): nothing learnt
+		r.Count("probe:inconclusive")
+		k.skipped = append(k.skipped, step)
+		return false
+	default:
+		outcome = "died"
+	}
+	r.Count("probe:" + outcome)
+	k.skipped = append(k.skipped, step)
+	what := fmt.Sprintf("%s: the process trying it first %s: %s", call, outcome, c15PanicLine(stderr.String()))
+	r.AddDirect("load-limit-exceeds-joined-log", what, map[string]interface{}{"hist": k.hist, "step": step, "call": call, "seed": r.Seed, "tier": r.Tier})
+	return false
+}
+
+// seen records the listing observed on replica rep (fresh: on a new handle) and returns
+// the classification signature of the case.
+func (k *kvRoutes) seen(rep int, listing []int, fresh bool) string {
+	if fresh {
+		k.held[rep], k.shrunk[rep] = nil, false
+	}
+	now := map[int]bool{}
+	for _, h := range listing {
+		now[h] = true
+	}
+	for h := range k.held[rep] {
+		if !now[h] {
+			k.shrunk[rep] = true
+		}
+	}
+	k.held[rep] = now
+	if k.shrunk[rep] {
+		return "index-keeps-dropped-entries"
+	}
+	return "index-ok"
+}
+
+func (k *kvRoutes) step(r *Run, s *Scen, rep int, at map[string]interface{}, observe func(what string, fresh bool) error) error {
+	ctx := context.Background()
+	settle := func(where string) {
+		if !s.Settle() {
+			r.AddDirect("hang:"+where, "store did not settle", map[string]interface{}{"at": at, "state": sim.LastSettleState})
+		}
+	}
+	save := func() error {
+		st := s.Stores[rep]
+		if out, msg, _ := c13Save(ctx, st); out != c13Ok {
+			return fmt.Errorf("SaveSnapshot: %s %s", c13OutcomeName[out], msg)
+		}
+		k.saved[rep], k.savedLen[rep] = true, st.OpLog().Len()
+		r.Count("route:save-snapshot")
+		return observe("save", false)
+	}
+	loadSnap := func(pfx string) error {
+		st := s.Stores[rep]
+		held := st.OpLog().Len()
+		if out, msg := c13Load(ctx, st); out != c13Ok {
+			return fmt.Errorf("LoadFromSnapshot: %s %s", c13OutcomeName[out], msg)
+		}
+		settle("snapshot-load")
+		switch {
+		case held > k.savedLen[rep]:
+			r.Count("route:snapshot-into-store-holding-more-entries")
+		case held == 0 && k.savedLen[rep] > 0:
+			r.Count("route:snapshot-into-empty-store")
+		default:
+			r.Count("route:snapshot-into-store-holding-the-same-or-fewer-entries")
+		}
+		return observe(pfx+"loadsnap", false)
+	}
+	restart := func() error {
+		if err := c13Reopen(s, rep); err != nil {
+			return err
+		}
+		r.Count("route:restart")
+		return observe("restart", true)
+	}
+	load := func(pfx string, n int) error {
+		held := s.Stores[rep].OpLog().Len()
+		if os.Getenv("KV_TRACE") != "" {
+			fmt.Fprintf(os.Stderr, "[%v] replica %d: %sload(%d) on a log of %d entries\n", at, rep, pfx, n, held)
+		}
+		do := func() error { return s.Stores[rep].Load(ctx, n) }
+		if n > held && held > 0 {
+			// asks for more entries than the store holds: tried in a child process first
+			if !k.guard(r, at["step"].(int), fmt.Sprintf("replica %d %sload(%d) on %d entries", rep, pfx, n, held), do) {
+				r.Count("route:load-limited-left-out")
+				return observe(fmt.Sprintf("%sload(%d) left out", pfx, n), false)
+			}
+		}
+		if err := do(); err != nil {
+			return fmt.Errorf("Load(%d): %w", n, err)
+		}
+		settle("load")
+		now := s.Stores[rep].OpLog().Len()
+		switch {
+		case n <= 0:
+			r.Count("route:load-unlimited")
+		case now < held:
+			r.Count("route:load-limited-drops-held-entries")
+		case now > 0:
+			r.Count("route:load-limited-nonempty")
+		default:
+			r.Count("route:load-limited-empty")
+		}
+		return observe(fmt.Sprintf("%sload(%d)", pfx, n), false)
+	}
+	// a limit between 1 and a little beyond what the log holds now
+	limit := 1 + r.Rng.Intn(s.Stores[rep].OpLog().Len()+2)
+	c := r.Rng.Intn(13)
+	if k.saved[rep] && s.Stores[rep].OpLog().Len() > k.savedLen[rep] && r.Rng.Intn(3) == 0 {
+		// the case the snapshot route is most delicate in: the store holds newer entries
+		c = 1
+	}
+	if !k.saved[rep] && (c == 1 || c == 2 || c == 6 || c == 9 || c == 10) {
+		c = 0
+	}
+	chain := func(fs ...func() error) error {
+		for _, f := range fs {
+			if err := f(); err != nil {
+				return err
+			}
+		}
+		return nil
+	}
+	switch c {
+	case 0:
+		return save()
+	case 1, 2:
+		return loadSnap("")
+	case 3:
+		return chain(restart, func() error { return load("restart+", -1) })
+	case 4, 5:
+		return chain(restart, func() error { return load("restart+", limit) })
+	case 6:
+		return chain(restart, func() error { return loadSnap("restart+") })
+	case 7:
+		// the store comes back empty; whatever is written or synced next starts a new log
+		return restart()
+	case 8:
+		// the live store reads its cached heads again: without a limit there is nothing to
+		// add; with a limit below its length the log is cut down to the newest entries
+		if r.Rng.Intn(2) == 0 {
+			return load("live+", -1)
+		}
+		return load("live+", limit)
+	case 9:
+		return chain(restart, func() error { return load("restart+", -1) }, func() error { return loadSnap("restart+load+") })
+	case 10:
+		return chain(restart, func() error { return loadSnap("restart+") }, func() error { return load("restart+loadsnap+", limit) })
+	case 11:
+		return chain(restart, func() error { return load("restart+", limit) }, func() error { return load("restart+load+", -1) })
+	default:
+		// a limited load, then a wider one on the live store (whose log lacks ancestors)
+		wider := limit + 1 + r.Rng.Intn(3)
+		return chain(restart, func() error { return load("restart+", limit) }, func() error { return load("restart+load+", wider) })
+	}
+}
+
 // C06: key-value store = last-writer-wins replay.  After every step on every replica
 // that changed: (previous observed map, current listing, observed All, observed Gets).
+// Steps: Put, Delete, sync from another replica, and the routes of kvRoutes (snapshots,
+// restarts, limited loads).
 func runC06(r *Run) error {
 	defer closeEnv()
 	hists := 12
@@ -35,7 +353,12 @@ func runC06(r *Run) error {
 	pool := []string{"a", "b", "k1", "", "ключ", "K1", "x/y"}
 	vals := [][]byte{[]byte("v1"), []byte("v2"), {}, {0, 255, 1}, []byte("долго"), []byte("v3")}
 	ctx := context.Background()
+	master := r.Rng
+	defer func() { r.Rng = master }()
 	for hi := 0; hi < hists; hi++ {
+		if !kvHistoryRng(r, master, hi) {
+			continue
+		}
 		n := 1 + r.Rng.Intn(3)
 		s, err := NewScen(n, "keyvalue", nil)
 		if err != nil {
@@ -44,14 +367,23 @@ func runC06(r *Run) error {
 		u := s.NewUniverse()
 		nk := 1 + r.Rng.Intn(len(pool))
 		keys := pool[:nk]
-		steps := 6 + r.Rng.Intn(14)
+		steps := 8 + r.Rng.Intn(18)
 		prev := make([]map[string][]byte, n)
 		for i := range prev {
 			prev[i] = map[string][]byte{}
 		}
-		observe := func(rep int, step int, what string) {
+		routes := newKvRoutes(n, hi)
+		observe := func(rep int, step int, what string, fresh bool) {
+			if fresh {
+				// the reopened store has a new, empty index
+				prev[rep] = map[string][]byte{}
+			}
 			st := s.Stores[rep].(iface.KeyValueStore)
 			listing := u.Note(st.OpLog().Values().Slice())
+			sig := routes.seen(rep, listing, fresh)
+			if os.Getenv("KV_TRACE") != "" {
+				fmt.Fprintf(os.Stderr, "[hist %d step %d] replica %d after %s: listing %v heads %v\n", hi, step, rep, what, listing, s.Canon.HashIDs(st.OpLog().Heads().Slice()))
+			}
 			all := st.All()
 			gets := make([]string, len(keys))
 			for i, k := range keys {
@@ -63,13 +395,21 @@ func runC06(r *Run) error {
 				gets[i] = fmt.Sprintf("(%s, %s)", sim.CoqBytes([]byte(k)), g)
 			}
 			r.AddCase(fmt.Sprintf("(CKv %s %s %s %s %s)", u.Name, coqKvMap(s.Canon, prev[rep]), sim.CoqListN(listing), coqKvMap(s.Canon, all), sim.CoqList(gets)),
-				map[string]interface{}{"kind": "kv", "hist": hi, "step": step, "replica": rep, "after": what, "entries": len(listing)}, len(listing) >= 2)
+				map[string]interface{}{"kind": "kv", "sig": sig, "hist": hi, "step": step, "replica": rep, "after": what, "entries": len(listing)}, len(listing) >= 2)
 			prev[rep] = all
 		}
 		for st := 0; st < steps; st++ {
 			rep := r.Rng.Intn(n)
 			kv := s.Stores[rep].(iface.KeyValueStore)
-			switch c := r.Rng.Intn(10); {
+			switch c := r.Rng.Intn(15); {
+			case c >= 10:
+				err := routes.step(r, s, rep, map[string]interface{}{"hist": hi, "step": st}, func(what string, fresh bool) error {
+					observe(rep, st, what, fresh)
+					return nil
+				})
+				if err != nil {
+					return fmt.Errorf("hist %d step %d replica %d: %w", hi, st, rep, err)
+				}
 			case c < 5:
 				k := keys[r.Rng.Intn(len(keys))]
 				v := vals[r.Rng.Intn(len(vals))]
@@ -77,14 +417,14 @@ func runC06(r *Run) error {
 					return err
 				}
 				r.Count("put")
-				observe(rep, st, "put")
+				observe(rep, st, "put", false)
 			case c < 7:
 				k := keys[r.Rng.Intn(len(keys))]
 				if _, err := kv.Delete(ctx, k); err != nil {
 					return err
 				}
 				r.Count("del")
-				observe(rep, st, "del")
+				observe(rep, st, "del", false)
 			default:
 				if n == 1 {
 					continue
@@ -100,9 +440,10 @@ func runC06(r *Run) error {
 					r.AddDirect("hang:sync", "replication did not settle", map[string]interface{}{"hist": hi, "step": st, "state": sim.LastSettleState})
 				}
 				r.Count("sync")
-				observe(rep, st, "sync")
+				observe(rep, st, "sync", false)
 			}
 		}
+		kvProbeEnd(hi)
 		r.Count(fmt.Sprintf("replicas=%d", n))
 		r.Pre = append(r.Pre, u.Def())
 		s.Close()
